@@ -632,6 +632,13 @@ func (w *world) exec(r *rec, op string) string {
 
 			break
 		}
+		if w.seq && in.kind == "k" && !in.started.Load() {
+			// sequential cases: a `k` worker asked before it runs would begin its shutdown while Start is still starting
+			// the other workers (a race between their handlers and the shutdown): nothing happens
+			ans = "notstarted"
+
+			break
+		}
 		in.finReq.Store(true)
 		in.finOnce.Do(func() { close(in.finish) })
 		if f[0] == "fin" && in.started.Load() {
